@@ -391,6 +391,8 @@ func runChild(mode string) {
 		childConc()
 	case "cold":
 		childCold()
+	case "coldtext":
+		childColdText()
 	}
 }
 
@@ -407,6 +409,31 @@ func childCold() {
 		}
 		fmt.Fprintln(w, evalFresh(unhx(f[0]), avFromProto(f[1]).GoMap()).Line())
 	}
+}
+
+// childColdText: the class and the text of the error one rule yields in a process in which nothing has been parsed before
+func childColdText() {
+	sc := bufio.NewScanner(os.Stdin)
+	sc.Buffer(make([]byte, 1<<20), 1<<26)
+	if sc.Scan() {
+		o := evalFresh(unhx(sc.Text()), map[string]interface{}{})
+		fmt.Println(o.E + "\t" + hx(o.ErrText))
+	}
+}
+
+// coldErrText: (class, error text) of a rule in a fresh process; ok=false when the child could not be run
+func (c *Ctx) coldErrText(rule string) (string, string, bool) {
+	cmd := exec.Command(c.Self, "-child", "coldtext")
+	cmd.Stdin = strings.NewReader(hx(rule) + "\n")
+	out, err := cmd.Output()
+	if err != nil {
+		return "", "", false
+	}
+	f := strings.SplitN(strings.TrimRight(string(out), "\n"), "\t", 2)
+	if len(f) != 2 {
+		return "", "", false
+	}
+	return f[0], unhx(f[1]), true
 }
 
 func (c *Ctx) coldReference(lines []string) []string {
@@ -605,6 +632,7 @@ func checkC11(c *Ctx) {
 			coldGot   []string
 			coldObj   []string
 			lastMap   map[string]interface{}
+			synCold   bool
 		}
 		var pool []*slot
 		mk := func() {
@@ -678,6 +706,18 @@ func checkC11(c *Ctx) {
 						Ops: strings.Join(sl.hist, " ; "), Demand: "what a freshly created evaluator returns: " + fresh.Line(), Go: got.Line() + " " + got.ErrText})
 					k = steps
 					break
+				}
+				if got.E == "syn" && !sl.synCold && c.R.Chance(1, 3) {
+					// the error of a malformed rule, text included, against a process in which nothing was parsed before
+					sl.synCold = true
+					if cls, txt, ok := c.coldErrText(sl.text); ok && cls == "syn" && txt != got.ErrText {
+						c.violate(Violation{Kind: "history", What: "the error a malformed rule yields depends on what was parsed earlier in the process", Rule: sl.text, RuleHex: hx(sl.text),
+							Ops: fmt.Sprintf("%d other rule texts parsed earlier in this process, then NewEvaluator(%q).Process({})", c.Res.Evaluations, sl.text),
+							Demand: "the error of a fresh process: " + txt, Go: got.ErrText})
+						k = steps
+						break
+					}
+					c.count("syntax_error_text_vs_cold_process")
 				}
 				if sl.variantOf != "" && !strings.Contains(o.String(), "X ") {
 					sl.coldIn = append(sl.coldIn, hx(sl.text)+"\t"+o.String())
